@@ -499,6 +499,10 @@ func vp9DecCase(x *Ctx, mk func(c *Case) (vp9Desc, []byte), nCuts int) {
 			}
 			c.Tag(tag)
 			p := &codecs.VP9Packet{}
+			// a second receiver with SetZeroAllocation(true) sees the same packets: the switch may cost
+			// metadata, not the payload ("returns the bytes after it" is evaluated on its result too)
+			z := &codecs.VP9Packet{}
+			z.SetZeroAllocation(true)
 			// two cases out of three decode into a USED receiver: it first decodes one or two other
 			// well-formed descriptors (every optional field populated in the first). "Decodes to
 			// exactly the encoded values" must not depend on what the receiver held before; the
@@ -508,13 +512,16 @@ func vp9DecCase(x *Ctx, mk func(c *Case) (vp9Desc, []byte), nCuts int) {
 				prev.I, prev.M, prev.L, prev.V = true, true, true, true
 				prev.SS = randVp9SS(c.R, false)
 				callUnmarshal(p, append(prev.encode(), 1, 2, 3))
+				callUnmarshal(z, append(prev.encode(), 1, 2, 3))
 				if c.R.Bool() {
 					prev2 := randVp9Desc(c.R)
 					callUnmarshal(p, append(prev2.encode(), 9))
+					callUnmarshal(z, append(prev2.encode(), 9))
 				}
 				c.Tag("used-receiver")
 			}
 			r := callUnmarshal(p, wire[:k])
+			rz := callUnmarshal(z, cloneBytes(wire[:k]))
 			head := false
 			try(func() { head = p.IsPartitionHead(wire[:k]) })
 			r.write(&c.O)
@@ -528,6 +535,7 @@ func vp9DecCase(x *Ctx, mk func(c *Case) (vp9Desc, []byte), nCuts int) {
 				writeVP9Md(&c.O, p)
 			}
 			c.O.Bool(head)
+			rz.write(&c.O)
 		})
 	}
 }
@@ -637,6 +645,10 @@ func vp9RtCase(x *Ctx, mk func(c *Case) (flex bool, init int, calls []vp9Call)) 
 		}
 		pay := &codecs.VP9Payloader{FlexibleMode: flex, InitialPictureIDFn: func() uint16 { return uint16(init) }}
 		rcv := &codecs.VP9Packet{}
+		// the same packets also go to ONE receiver with SetZeroAllocation(true): losslessness is
+		// evaluated on what it returns as well
+		zrcv := &codecs.VP9Packet{}
+		zrcv.SetZeroAllocation(true)
 		c.O.Nat(len(calls))
 		nontrivial := false
 		// payload the whole history first, read it afterwards (see vp8RtCase)
@@ -662,6 +674,8 @@ func vp9RtCase(x *Ctx, mk func(c *Case) (flex bool, init int, calls []vp9Call)) 
 				head := false
 				try(func() { head = rcv.IsPartitionHead(f) })
 				c.O.Bool(head)
+				rz := callUnmarshal(zrcv, cloneBytes(f))
+				rz.write(&c.O)
 			}
 		}
 		if !nontrivial {
@@ -781,6 +795,26 @@ func genC12Rt(x *Ctx) {
 			}
 			return flex, init, calls
 		})
+	}
+	// frames of 2^16 … 2^16+2000 bytes and of 2^17 bytes and more (byte counts that no longer fit 16 bits),
+	// key and non-key, both modes, at an ordinary MTU and at the largest one; a small frame follows
+	for _, flex := range []bool{false, true} {
+		for _, mtu := range []int{1200, 65535} {
+			for v := 0; v < 4; v++ {
+				flex, mtu, v := flex, mtu, v
+				vp9RtCase(x, func(c *Case) (bool, int, []vp9Call) {
+					r := c.R
+					n := []int{65536, 65536 + r.Range(1, 2000), 65535, 131072 + r.Range(0, 3000)}[v]
+					if n >= 65536 {
+						c.Tag("frame>=2^16")
+					}
+					h := randVp9Hdr(r)
+					h.Kind = []string{"key", "nk"}[r.Intn(2)]
+					nk := &vp9Hdr{Kind: "nk", Profile: h.Profile, ShowFrame: true}
+					return flex, r.Pick(0, 32767, r.Intn(65536)), []vp9Call{{mtu, h.frame(r, n), h}, {mtu, nk.frame(r, r.Range(1, 40)), nk}}
+				})
+			}
+		}
 	}
 }
 
